@@ -4,6 +4,9 @@ gen/ActiveTagTables.vos gen/ActiveTagTables.vok gen/ActiveTagTables.required_vos
 gen/ConfigTables.vo gen/ConfigTables.glob gen/ConfigTables.v.beautified gen/ConfigTables.required_vo: gen/ConfigTables.v theories/Base.vo theories/ConfigTypes.vo
 gen/ConfigTables.vio: gen/ConfigTables.v theories/Base.vio theories/ConfigTypes.vio
 gen/ConfigTables.vos gen/ConfigTables.vok gen/ConfigTables.required_vos: gen/ConfigTables.v theories/Base.vos theories/ConfigTypes.vos
+gen/GherkinTables.vo gen/GherkinTables.glob gen/GherkinTables.v.beautified gen/GherkinTables.required_vo: gen/GherkinTables.v theories/Base.vo theories/GherkinTypes.vo
+gen/GherkinTables.vio: gen/GherkinTables.v theories/Base.vio theories/GherkinTypes.vio
+gen/GherkinTables.vos gen/GherkinTables.vok gen/GherkinTables.required_vos: gen/GherkinTables.v theories/Base.vos theories/GherkinTypes.vos
 gen/JUnitTables.vo gen/JUnitTables.glob gen/JUnitTables.v.beautified gen/JUnitTables.required_vo: gen/JUnitTables.v theories/Base.vo theories/Status.vo
 gen/JUnitTables.vio: gen/JUnitTables.v theories/Base.vio theories/Status.vio
 gen/JUnitTables.vos gen/JUnitTables.vok gen/JUnitTables.required_vos: gen/JUnitTables.v theories/Base.vos theories/Status.vos
@@ -55,6 +58,15 @@ theories/Formatters.vos theories/Formatters.vok theories/Formatters.required_vos
 theories/FormattersProofs.vo theories/FormattersProofs.glob theories/FormattersProofs.v.beautified theories/FormattersProofs.required_vo: theories/FormattersProofs.v theories/Base.vo theories/Status.vo theories/Rollup.vo theories/Runner.vo theories/RunnerSteps.vo theories/RunnerQuiet.vo theories/Formatters.vo gen/StatusTable.vo
 theories/FormattersProofs.vio: theories/FormattersProofs.v theories/Base.vio theories/Status.vio theories/Rollup.vio theories/Runner.vio theories/RunnerSteps.vio theories/RunnerQuiet.vio theories/Formatters.vio gen/StatusTable.vio
 theories/FormattersProofs.vos theories/FormattersProofs.vok theories/FormattersProofs.required_vos: theories/FormattersProofs.v theories/Base.vos theories/Status.vos theories/Rollup.vos theories/Runner.vos theories/RunnerSteps.vos theories/RunnerQuiet.vos theories/Formatters.vos gen/StatusTable.vos
+theories/Gherkin.vo theories/Gherkin.glob theories/Gherkin.v.beautified theories/Gherkin.required_vo: theories/Gherkin.v theories/Base.vo theories/UStr.vo theories/GherkinTypes.vo gen/UnicodeTables.vo gen/GherkinTables.vo
+theories/Gherkin.vio: theories/Gherkin.v theories/Base.vio theories/UStr.vio theories/GherkinTypes.vio gen/UnicodeTables.vio gen/GherkinTables.vio
+theories/Gherkin.vos theories/Gherkin.vok theories/Gherkin.required_vos: theories/Gherkin.v theories/Base.vos theories/UStr.vos theories/GherkinTypes.vos gen/UnicodeTables.vos gen/GherkinTables.vos
+theories/GherkinProofs.vo theories/GherkinProofs.glob theories/GherkinProofs.v.beautified theories/GherkinProofs.required_vo: theories/GherkinProofs.v theories/Base.vo theories/UStr.vo theories/GherkinTypes.vo theories/Gherkin.vo gen/UnicodeTables.vo gen/GherkinTables.vo
+theories/GherkinProofs.vio: theories/GherkinProofs.v theories/Base.vio theories/UStr.vio theories/GherkinTypes.vio theories/Gherkin.vio gen/UnicodeTables.vio gen/GherkinTables.vio
+theories/GherkinProofs.vos theories/GherkinProofs.vok theories/GherkinProofs.required_vos: theories/GherkinProofs.v theories/Base.vos theories/UStr.vos theories/GherkinTypes.vos theories/Gherkin.vos gen/UnicodeTables.vos gen/GherkinTables.vos
+theories/GherkinTypes.vo theories/GherkinTypes.glob theories/GherkinTypes.v.beautified theories/GherkinTypes.required_vo: theories/GherkinTypes.v theories/Base.vo
+theories/GherkinTypes.vio: theories/GherkinTypes.v theories/Base.vio
+theories/GherkinTypes.vos theories/GherkinTypes.vok theories/GherkinTypes.required_vos: theories/GherkinTypes.v theories/Base.vos
 theories/JUnit.vo theories/JUnit.glob theories/JUnit.v.beautified theories/JUnit.required_vo: theories/JUnit.v theories/Base.vo theories/UStr.vo theories/Status.vo gen/StatusTable.vo gen/JUnitTables.vo
 theories/JUnit.vio: theories/JUnit.v theories/Base.vio theories/UStr.vio theories/Status.vio gen/StatusTable.vio gen/JUnitTables.vio
 theories/JUnit.vos theories/JUnit.vok theories/JUnit.required_vos: theories/JUnit.v theories/Base.vos theories/UStr.vos theories/Status.vos gen/StatusTable.vos gen/JUnitTables.vos
@@ -145,6 +157,9 @@ props/C02.vos props/C02.vok props/C02.required_vos: props/C02.v theories/Base.vo
 props/C03.vo props/C03.glob props/C03.v.beautified props/C03.required_vo: props/C03.v theories/Base.vo theories/Status.vo theories/Rollup.vo theories/RollupProofs.vo gen/StatusTable.vo
 props/C03.vio: props/C03.v theories/Base.vio theories/Status.vio theories/Rollup.vio theories/RollupProofs.vio gen/StatusTable.vio
 props/C03.vos props/C03.vok props/C03.required_vos: props/C03.v theories/Base.vos theories/Status.vos theories/Rollup.vos theories/RollupProofs.vos gen/StatusTable.vos
+props/C05.vo props/C05.glob props/C05.v.beautified props/C05.required_vo: props/C05.v theories/Base.vo theories/UStr.vo theories/GherkinTypes.vo theories/Gherkin.vo theories/GherkinProofs.vo
+props/C05.vio: props/C05.v theories/Base.vio theories/UStr.vio theories/GherkinTypes.vio theories/Gherkin.vio theories/GherkinProofs.vio
+props/C05.vos props/C05.vok props/C05.required_vos: props/C05.v theories/Base.vos theories/UStr.vos theories/GherkinTypes.vos theories/Gherkin.vos theories/GherkinProofs.vos
 props/C06.vo props/C06.glob props/C06.v.beautified props/C06.required_vo: props/C06.v theories/Base.vo theories/UStr.vo theories/Outline.vo theories/OutlineProofs.vo
 props/C06.vio: props/C06.v theories/Base.vio theories/UStr.vio theories/Outline.vio theories/OutlineProofs.vio
 props/C06.vos props/C06.vok props/C06.required_vos: props/C06.v theories/Base.vos theories/UStr.vos theories/Outline.vos theories/OutlineProofs.vos
